@@ -245,6 +245,17 @@ def run_case(case, ctx):
         r = lib(orphan.dereference)
         if not (isinstance(r, Err) and r.type == "NullPointerDereference"):
             raise Violation("null-dereference", f"default (stream-less) pointer dereference gave {r!r}: {desc()}")
+        # ... and a non-null one without a stream (arithmetic on a default pointer; direct construction)
+        a0 = 1 + (len(image) % 7)
+        for how, mk in (("default + n", lambda: orphan + a0), ("P(addr, None)", lambda: P0(a0, None))):
+            q = lib(mk)
+            if isinstance(q, Err) or not isinstance(q, m.Pointer) or int(q) != a0:
+                raise Violation("pointer-arithmetic", f"{how} with n = {a0} gave {q!r}: {desc()}")
+            for access in ("dereference", "str"):
+                r = lib(q.dereference) if access == "dereference" else lib(str, q)
+                if not (isinstance(r, Err) and r.type == "NullPointerDereference"):
+                    raise Violation("null-dereference", f"non-null pointer without a stream ({how}, address {a0}): {access} gave {r!r} instead of NullPointerDereference: {desc()}")
+        ctx.count("deref:streamless-nonnull")
     ctx.count(f"ptr:{cfg['ptr']}:{cfg['endian']}:{'compiled' if getattr(T, '__compiled__', False) else 'interpreted'}")
     if any(f["t"]["k"] == "a" for f in sem.res(common_root())["fields"]):
         ctx.count("has:pointer-array")
